@@ -12,6 +12,9 @@ def table : List ModelEntries :=
   [ Entries.stopsource
   , Entries.eventloop
   , Entries.atomicqueue
+  , Entries.threadpool
+  , Entries.newthread
+  , Entries.trampoline
   ]
 
 def lookup (m c : String) : Option Entry :=
